@@ -16,6 +16,9 @@ def run(prop, tier, only=None, replay=None):
     jobs = mod.jobs(tier)
     if only:
         jobs = [j for j in jobs if re.search(only, j.name)]
+    if not jobs:
+        print('UNDECIDED no job selected for %s (tier %s, only=%r): nothing was checked' % (prop, tier, only))
+        return 2
     info = getattr(mod, 'INFO', {})
     return driver.main(prop, jobs, tier, info.get('level_note', ''), not_under_contract=info.get('not_under_contract', ()),
                        extra_assumptions=info.get('assumptions', ()), explanation=info.get('explanation', ''), partial=bool(only))
